@@ -603,6 +603,19 @@ pub fn emit_case(rng: &mut Rng, bytes0: &[u8], out: &mut Vec<String>, native_fri
             }
         }
     }
+    // indirect CALL / JMP through memory: put a canonical target into the operand (a random quadword almost never is one, and
+    // the CPU then faults where the emulator does not care)
+    if mem_patch.is_none() && matches!(ins.mnemonic(), Mnemonic::Call | Mnemonic::Jmp) && has_mem(&ins) {
+        if let Some(a) = ea_of(&regs) {
+            let t = match rng.below(4) {
+                0 => code_base + 0x20,
+                1 => 0x7fff_ffff_f000,
+                2 => 0x1000_0000 + rng.below(0x1000),
+                _ => code_base.wrapping_add(rng.below(0x100)),
+            };
+            mem_patch = Some((a, (0..8).map(|k| (t >> (8 * k)) as u8).collect()));
+        }
+    }
     let ea = ea_of(&regs);
     out.push(format!("new {} {:x} {:x}", hex(&bytes), code_base, code_base));
     out.push(dec_line(&bytes, code_base, code_base)?);
